@@ -15,7 +15,9 @@ RULE = ("abstract GHW value histories (std_ulogic and bit scalars and vectors of
         "Non-trivial: the history has a vector wider than 8 bits or a delta cycle; distinct histories. "
         "Complete GHW files: random designs (instances, packages, blocks, generate and generic scopes; std_[u]logic, bit, "
         "their vectors with to/downto ranges and offsets, user enumerations incl. ones that start like bit or std_ulogic, "
-        "boolean, integers, reals; six port directions; identifiers sharing 31..56 leading characters so that the string "
+        "boolean, integers, reals; arrays of vectors / integers / reals / enumerations with ascending and descending "
+        "ranges and records - both loaded as scopes, array elements labelled with their declared index in declaration "
+        "order -; six port directions; identifiers sharing 31..56 leading characters so that the string "
         "table's prefix compression is exercised; little and big endian; delta cycles inside and across cycle sections) are "
         "written by vlib/filegen.py and loaded; the full listing (harness command wfull: scope kinds, variable types, "
         "directions, ranges, enum tables, type names, every change) must equal the listing computed from the design.")
